@@ -250,9 +250,17 @@ def fsub(a, b):
     return [x - y for x, y in zip(a, b)]
 
 
+PLANE_NORMAL = [None]     # side channel of geometry_class: exact normal of the 3-neighbour plane of the last 'ok' call
+
+
+def fcross(a, b):
+    return [a[1] * b[2] - a[2] * b[1], a[2] * b[0] - a[0] * b[2], a[0] * b[1] - a[1] * b[0]]
+
+
 def geometry_class(mol, i, k):
     """('ok', w) with w = centroid - centre as floats when the property's non-degenerate domain applies to the
     'points away' clause; ('none', None) without orienting neighbours; ('degenerate', None) otherwise"""
+    PLANE_NORMAL[0] = None
     a = mol["atoms"][i]["xyz"]
     nb = [j for a1, a2, _, _ in mol["bonds"] if i in (a1, a2) for j in ((a2,) if a1 == i else (a1,)) if j != i]
     nb = [j for j in nb if not mol["atoms"][j]["cc"]]
@@ -275,6 +283,11 @@ def geometry_class(mol, i, k):
         height = abs(sum(n[c] * (a[c] - p1[c]) for c in range(3))) / nn
         if height < 0.1 or k != 1:
             return "degenerate", None, nb
+        lu, lv = math.sqrt(sum(x * x for x in u)), math.sqrt(sum(x * x for x in v))
+        if nn > 0.2 * lu * lv:
+            # well-conditioned: the plane through the three neighbours is their mean plane; its normal in exact arithmetic
+            fu, fv = fsub(fvec(p2), fvec(p1)), fsub(fvec(p3), fvec(p1))
+            PLANE_NORMAL[0] = [fu[1] * fv[2] - fu[2] * fv[1], fu[2] * fv[0] - fu[0] * fv[2], fu[0] * fv[1] - fu[1] * fv[0]]
     if len(nb) == 2 and k == 2:
         r1 = [pts[0][c] - a[c] for c in range(3)]
         r2 = [pts[1][c] - a[c] for c in range(3)]
@@ -286,14 +299,14 @@ def geometry_class(mol, i, k):
     return "ok", w, nb
 
 
-def run_case(ctx, mol, origin, requests, live=None, group_of=None, radius_of=None):
+def run_case(ctx, mol, origin, requests, live=None, group_of=None, radius_of=None, extra_tag=None, bad_normals=None):
     """one molecule through the real routine + oracle; appends driver requests"""
     import numpy as np
 
     s = live if live is not None else build(mol)
     n0 = len(mol["atoms"])
     before = snapshot(s)
-    tag = {"mol": mol, "origin": origin}
+    tag = {"mol": mol, "origin": origin, **(extra_tag or {})}
     try:
         with warnings.catch_warnings():
             warnings.simplefilter("ignore")
@@ -380,6 +393,7 @@ def run_case(ctx, mol, origin, requests, live=None, group_of=None, radius_of=Non
             continue
         k = len(hs)
         cls, w, nb = geometry_class(mol, i, k)
+        nrm = PLANE_NORMAL[0]
         ctx.count(f"branch:k={k}:nbrs={min(len(nb), 4)}:{cls}")
         if cls == "degenerate":
             continue
@@ -407,10 +421,21 @@ def run_case(ctx, mol, origin, requests, live=None, group_of=None, radius_of=Non
                 ctx.violation("C16:not-pointing-away", f"hydrogen {j} on atom {i} does not point away from the centroid of its neighbours", {**tag, "atom": i})
         if len(set(tuple(map(float, p)) for p in P)) != len(P):
             ctx.violation("C16:coincident-hydrogens", f"hydrogens {hs} on atom {i} share a position", {**tag, "atom": i})
+        if nrm is not None:
+            # three neighbours: the model's direction is the normal of their plane, so the hydrogen lies on it
+            ctx.count("three-neighbour-normal-checked")
+            d = fsub(fvec(P[0]), fa)
+            cr = fcross(d, nrm)
+            if fdot(cr, cr) > Fraction(1, 10 ** 8) * fdot(d, d) * fdot(nrm, nrm):
+                ctx.count("three-neighbour-normal-off")
+                if bad_normals is not None:
+                    bad_normals.append((mol, i))
         if ok_struct:
             wreq = "-" if w is None else vec_s([a[c] + w[c] for c in range(3)])
-            line = f"g z={mol['atoms'][i]['z']} k={k} a={vec_s(a)} w={wreq} hs={';'.join(vec_s(p) for p in P)}"
-            want = f"d={'1' * k} away={'-' if w is None else '1' * k} ang={'1' if k == 2 else '-'}"
+            nreq = "" if nrm is None else " nrm=" + ",".join(f"{x.numerator}/{x.denominator}" for x in nrm)
+            line = f"g z={mol['atoms'][i]['z']} k={k} a={vec_s(a)} w={wreq}{nreq} hs={';'.join(vec_s(p) for p in P)}"
+            want = (f"d={'1' * k} away={'-' if w is None else '1' * k} ang={'1' if k == 2 else '-'} "
+                    f"par={'-' if nrm is None else '1' * k}")
             requests.append((line, want, {**tag, "atom": i, "what": "exact position predicates of the model"}))
 
     # ---- 4. the combinatorial outcome against the model ----
@@ -437,6 +462,131 @@ def run_case(ctx, mol, origin, requests, live=None, group_of=None, radius_of=Non
 
 
 # ----------------------------------------------------------------------------------------------
+
+# ----------------------------------------------------------------------------------------------
+# copies of one molecule: completing one must not touch the other, and each gets what ITS hints say
+# ----------------------------------------------------------------------------------------------
+COPY_HOW = ["ctor", "deepcopy", "pickle"]
+
+
+def make_copy(s, how):
+    import copy
+    import pickle
+
+    if how == "ctor":
+        return type(s)(s)
+    if how == "deepcopy":
+        return copy.deepcopy(s)
+    return pickle.loads(pickle.dumps(s))
+
+
+def same_snapshot(x, y):
+    return (x["atoms"] == y["atoms"] and x["bonds"] == y["bonds"] and x["coords"].tobytes() == y["coords"].tobytes()
+            and x["charges"] == y["charges"])
+
+
+def run_copies(ctx, mol, origin, requests, how, order, live=None, **kw):
+    """clone, complete one, check the other is untouched, complete the other: both judged against the same description"""
+    s = live if live is not None else build(mol)
+    extra = {"copy": how, "order": order}
+    try:
+        c = make_copy(s, how)
+    except Exception as e:  # noqa: BLE001
+        ctx.count(f"copy:{how}:not-possible:{type(e).__name__}")
+        return run_case(ctx, mol, origin, requests, live=s, **kw)
+    ctx.count(f"copy:{how}:{order}")
+    # the copy must carry the same description (hints included), otherwise the scenario says nothing
+    if [a.attrib.get("__implicit_hydrogens") for a in c.atoms] != [a["hint"] for a in mol["atoms"]]:
+        ctx.count(f"copy:{how}:hints-not-carried")
+        return run_case(ctx, mol, origin, requests, live=s, **kw)
+    first, second = (c, s) if order == "copy-first" else (s, c)
+    pre = snapshot(second)
+    added = run_case(ctx, mol, origin, requests, live=first, extra_tag={**extra, "completed": "first"}, **kw)
+    post = snapshot(second)
+    if not same_snapshot(pre, post):
+        changed = [i for i, (x, y) in enumerate(zip(pre["atoms"], post["atoms"])) if x != y]
+        ctx.violation("C16:completing-one-copy-changed-the-other",
+                      f"after add_implicit_hydrogens on the {'copy' if order == 'copy-first' else 'original'} ({how}) the other object changed "
+                      f"(atoms {changed[:6]}; {len(pre['atoms'])} -> {len(post['atoms'])} atoms)", {"mol": mol, "origin": origin, **extra})
+    run_case(ctx, mol, origin, requests, live=second, extra_tag={**extra, "completed": "second"}, **kw)
+    return added
+
+
+# ----------------------------------------------------------------------------------------------
+# three-neighbour centres under rigid placements
+# ----------------------------------------------------------------------------------------------
+def random_rotation(rng):
+    while True:
+        q = [2 * rng.uniform() - 1 for _ in range(4)]
+        n2 = sum(x * x for x in q)
+        if 0.05 < n2 <= 1:
+            break
+    n = math.sqrt(n2)
+    w, x, y, z = (t / n for t in q)
+    return [[1 - 2 * (y * y + z * z), 2 * (x * y - z * w), 2 * (x * z + y * w)],
+            [2 * (x * y + z * w), 1 - 2 * (x * x + z * z), 2 * (y * z - x * w)],
+            [2 * (x * z - y * w), 2 * (y * z + x * w), 1 - 2 * (x * x + y * y)]]
+
+
+def place(mol, rng, tmax=50.0):
+    """the same molecule after a random rotation and a translation of length up to `tmax` Å"""
+    R = random_rotation(rng)
+    d = unit((rng.uniform() - 0.5, rng.uniform() - 0.5, rng.uniform() - 0.5 + 1e-9))
+    t = [tmax * rng.uniform() * x for x in d]
+    out = json.loads(json.dumps(mol))
+    for a in out["atoms"]:
+        p = a["xyz"]
+        a["xyz"] = [sum(R[r][c] * p[c] for c in range(3)) + t[r] for r in range(3)]
+    return out
+
+
+def pyramid(rng):
+    """a centre that needs exactly one hydrogen, with three neighbours in a plane `h` Å below it (flattened to steep)"""
+    z, q = rng.choice([(6, 0), (6, 0), (7, 1), (5, -1), (14, 0), (15, 1)])
+    h = rng.choice([0.12, 0.15, 0.2, 0.25, 0.3, 0.4, 0.5]) + 0.05 * rng.uniform() if rng.chance(3, 4) else 0.5 + 0.4 * rng.uniform()
+    atoms = [{"z": z, "q": q, "spin": 0, "cc": False, "hint": None, "xyz": [0.0, 0.0, 0.0], "pc": 0.0}]
+    bonds = []
+    for t in range(3):
+        phi = math.radians(120 * t + 50 * (rng.uniform() - 0.5))
+        rho = 1.0 + 0.8 * rng.uniform()
+        atoms.append({"z": rng.choice([9, 17, 1, 35]), "q": 0, "spin": 0, "cc": False, "hint": None,
+                      "xyz": [rho * math.cos(phi), rho * math.sin(phi), -h], "pc": 0.0})
+        bonds.append([0, t + 1, 1, "1/1"] if rng.chance(1, 2) else [t + 1, 0, 1, "1/1"])
+    return {"atoms": atoms, "bonds": bonds, "cls": "Molecule" if rng.chance(1, 2) else "Structure", "sel": None}
+
+
+def search_sign_failure(ctx, mol, i, rng, tries, **kw):
+    """failing-input search (S): the direction on atom `i` is not the normal of its neighbours' plane; look for a rigid
+    placement of the same molecule in which the hydrogen ends up pointing towards the centroid"""
+    import numpy as np
+
+    for t in range(tries):
+        m2 = place(mol, rng)
+        s = build(m2)
+        n0 = len(m2["atoms"])
+        try:
+            with warnings.catch_warnings():
+                warnings.simplefilter("ignore")
+                with np.errstate(all="ignore"):
+                    s.add_implicit_hydrogens()
+        except Exception:  # noqa: BLE001
+            continue
+        idx = {id(a): k for k, a in enumerate(s.atoms)}
+        hs = [idx[id(b.a2)] if idx[id(b.a1)] == i else idx[id(b.a1)] for b in s.bonds
+              if i in (idx[id(b.a1)], idx[id(b.a2)]) and max(idx[id(b.a1)], idx[id(b.a2)]) >= n0]
+        cls, w, nb = geometry_class(m2, i, len(hs))
+        if cls != "ok" or w is None:
+            continue
+        fa = fvec(m2["atoms"][i]["xyz"])
+        for j in hs:
+            if np.isfinite(s.coords[j]).all() and fdot(fsub(fvec(s.coords[j]), fa), fvec(w)) >= 0:
+                ctx.violation("C16:not-pointing-away",
+                              f"hydrogen {j} on atom {i} does not point away from the centroid of its neighbours "
+                              f"(found by the placement search, try {t + 1})", {"mol": m2, "origin": "search:rigid-placements", "atom": i})
+                return True
+    return False
+
+
 def mol_to_json(mol):
     return json.loads(json.dumps(mol))
 
@@ -453,7 +603,12 @@ def run(ctx):
 
     ctx.rule = ("one case = one molecule through add_implicit_hydrogens (default atom list, or an explicit duplicate-free subset of "
                 "group 13–17 atoms), compared atom by atom: counts, new bonds, consumed hints, array lengths, positions, second call. "
-                "Non-trivial = at least one hydrogen is added. Distinct by the canonical model request.")
+                "Non-trivial = at least one hydrogen is added. Distinct by the canonical model request. Copy scenarios: the molecule is "
+                "cloned (copy constructor / deepcopy / pickle), one of the two is completed, the other must be untouched, then the other is "
+                "completed; both are judged against the same description (every bundled CDXML fragment; generated molecules, half of those "
+                "with hints). Placement scenarios: a centre with three neighbours in a plane 0.12–0.9 Å below it, needing one hydrogen, "
+                "under rotations + translations up to 50 Å; the hydrogen must lie on the exact normal of that plane (model tie) and point "
+                "away from the centroid (strict).")
     ctx.assumptions += [
         "A-frame: normalisation, cross products, SVD (mean_plane) and rotation_matrix_from_vectors are floating-point; the theorems take the resulting frame as input and state what they need of it; the returned positions are checked against the exact constants with tolerance 2e-5·L² (model) / 1e-4 relative (property)",
         "A-domain: 'points away' is claimed where the property's non-degenerate domain applies (centroid of the orienting neighbours ≠ centre, 3 neighbours pyramidal by ≥ 0.1 Å and one hydrogen, 2 neighbours not collinear, ≤ 3 neighbours); coordination-centre neighbours do not orient (as the code filters them)",
@@ -463,7 +618,8 @@ def run(ctx):
     ctx.proof(props=["Molli.Props.C16"], gen=["Valence"])
     rng = ctx.rng
     requests = []
-    kw = dict(group_of=group_of, radius_of=radius_of)
+    bad_normals = []
+    kw = dict(group_of=group_of, radius_of=radius_of, bad_normals=bad_normals)
 
     def account(mol, added, origin):
         line = model_line(mol)
@@ -481,8 +637,12 @@ def run(ctx):
     cdir = Path(__file__).resolve().parent.parent / "corpus" / "C16"
     if cdir.is_dir():
         for f in sorted(cdir.glob("*.json")):
-            mol = json.loads(f.read_text())["mol"]
-            added = run_case(ctx, mol, "corpus", requests, **kw)
+            j = json.loads(f.read_text())
+            mol = j["mol"]
+            if j.get("copy"):
+                added = run_copies(ctx, mol, "corpus", requests, j["copy"], j.get("order", "copy-first"), **kw)
+            else:
+                added = run_case(ctx, mol, "corpus", requests, **kw)
             account(mol, added, "corpus")
 
     # ---- the whole domain of the count formula on one centre ----
@@ -500,7 +660,12 @@ def run(ctx):
         mol = gen_molecule(rng, ctx.quick())
         if rng.chance(1, 6):
             mol["sel"] = choose_subset(rng, mol, group_of)
-        added = run_case(ctx, mol_to_json(mol), "random", requests, **kw)
+        has_hint = any(a["hint"] is not None for a in mol["atoms"])
+        if mol["sel"] is None and rng.chance(1, 2 if has_hint else 10):
+            added = run_copies(ctx, mol_to_json(mol), "random", requests, rng.choice(COPY_HOW),
+                               rng.choice(["copy-first", "original-first"]), **kw)
+        else:
+            added = run_case(ctx, mol_to_json(mol), "random", requests, **kw)
         account(mol, added, "random")
         if k < 3:
             ctx.sample({"request": model_line(mol)[:300], "hydrogens_added": added})
@@ -528,10 +693,39 @@ def run(ctx):
                 ctx.count("cdxml:fragment-not-parsed")
                 continue
             mol = describe(live)
-            added = run_case(ctx, mol, f"cdxml:{f.name}:{key}", requests, live=live, **kw)
+            # every fragment as a pair of copies: clone, complete one, then the other (all ways of copying, both orders)
+            how = COPY_HOW[ncd % 3]
+            order = ["copy-first", "original-first"][(ncd // 3) % 2]
+            added = run_copies(ctx, mol, f"cdxml:{f.name}:{key}", requests, how, order, live=live, **kw)
             account(mol, added, "cdxml")
             ncd += 1
     ctx.extra_cov["cdxml_fragments"] = ncd
+
+    # ---- three-neighbour centres: the same local geometry under many rigid placements ----
+    ngeo, nplace = (40, 8) if ctx.quick() else (1500, 12)
+    for g in range(ngeo):
+        ctx.check_deadline()
+        base = pyramid(rng)
+        for t in range(nplace):
+            mol = place(base, rng) if t else base
+            added = run_case(ctx, mol, "placement", requests, **kw)
+            account(mol, added, "placement")
+    ctx.extra_cov["rigid_placements"] = f"{ngeo} three-neighbour geometries (centre 0.12–0.9 Å out of plane) x {nplace} rotations + translations up to 50 Å"
+
+    # ---- search (S): a direction that is not the plane normal → look for a placement where the sign comes out wrong ----
+    if bad_normals:
+        budget = 3000 if ctx.quick() else 30000
+        seen = 0
+        for mol, i in bad_normals:
+            if seen >= 6 or budget <= 0 or len(mol["atoms"]) > 12:
+                continue
+            seen += 1
+            tries = min(budget, 1000 if ctx.quick() else 6000)
+            budget -= tries
+            ctx.count("placement-search:started")
+            if search_sign_failure(ctx, mol, i, rng, tries, **kw):
+                ctx.count("placement-search:found")
+                break
 
     # ---- model side ----
     outs = ctx.driver([r[0] for r in requests])
@@ -551,6 +745,16 @@ def replay(ctx, path):
         return 0
     mol = r["mol"]
     s = build(mol)
+    if r.get("copy"):
+        c = make_copy(s, r["copy"])
+        first, second = (c, s) if r.get("order") == "copy-first" else (s, c)
+        with warnings.catch_warnings():
+            warnings.simplefilter("ignore")
+            first.add_implicit_hydrogens()
+        print(f"copy scenario ({r['copy']}, {r.get('order')}): first object completed: {len(mol['atoms'])} -> {first.n_atoms} atoms;",
+              "hints left on the other:", [a.attrib.get("__implicit_hydrogens") for a in second.atoms],
+              "described:", [a["hint"] for a in mol["atoms"]])
+        s = second
     with warnings.catch_warnings():
         warnings.simplefilter("ignore")
         s.add_implicit_hydrogens() if mol["sel"] is None else s.add_implicit_hydrogens(*[s.atoms[i] for i in mol["sel"]])
